@@ -136,6 +136,7 @@ class Contract:
         self.modifies = []  # (objexpr, [fields])
         self.raises = []  # Raises
         self.modifies_where = []
+        self.allocates_when = {}
         self.invariants = {}  # loop id -> [(name, expr)]
         self.ghost_sets = []  # (objexpr, field, expr)
         self.after_loop = {}  # loop id -> [(name, expr)] asserted (checked, then assumed) at the loop's normal exit
@@ -235,6 +236,10 @@ class Contract:
                 self.uses[a[0].value] = set(x.value for x in a[1:])
             elif fn == "allocates":
                 self.allocates.extend(x.value for x in a)
+                if "when" in kw:
+                    # allocates("C", when=e): objects of class C are only allocated by calls in which e holds
+                    for x in a:
+                        self.allocates_when[x.value] = kw["when"]
             elif fn == "comprehension_elt":
                 self.comp_elt = parse_type(a[0].value)
             elif fn == "reveal":
